@@ -52,7 +52,39 @@ def _span(rng, lo=0, hi=16, minw=1, maxw=8):
     return a, a + w
 
 
+def _star_ring(rng):
+    """A simple polygon with 4-7 integer vertices that is neither a rectangle nor a right
+    triangle: random points sorted by angle around an interior point (vertices that are not
+    extremal in x or y, edges of every slope).  None if the draw is degenerate."""
+    cx, cy = rng.randint(3, 13), rng.randint(3, 13)
+    pts = {}
+    for _ in range(rng.randint(4, 7)):
+        x, y = rng.randint(0, 16), rng.randint(0, 16)
+        if (x, y) == (cx, cy):
+            continue
+        a = math.atan2(y - cy, x - cx)
+        d = (x - cx) ** 2 + (y - cy) ** 2
+        key = round(a, 9)
+        if key not in pts or pts[key][0] < d:
+            pts[key] = (d, x, y)
+    ring = [(x, y) for _, (d, x, y) in sorted(pts.items())]
+    if len(ring) < 3:
+        return None
+    area2 = sum(ring[i][0] * ring[(i + 1) % len(ring)][1] - ring[(i + 1) % len(ring)][0] * ring[i][1]
+                for i in range(len(ring)))
+    if area2 == 0:
+        return None
+    if rng.random() < 0.3:
+        ring.reverse()
+    ring.append(ring[0])
+    return [float(v) for p in ring for v in p]
+
+
 def gen_polygon(rng, ints=False):
+    if rng.random() < 0.25:
+        star = _star_ring(rng)
+        if star is not None:
+            return [star]
     x0, x1 = _span(rng)
     y0, y1 = _span(rng)
     ccw = rng.random() < 0.8
@@ -122,7 +154,11 @@ def gen_values(rng, kind, n, p_missing=0.15, p_empty=0.1, subtype="float64",
         if r < p_missing:
             vals.append(None)
         elif r < p_missing + p_empty:
-            vals.append(empty_element(kind, subtype))
+            e = empty_element(kind, subtype)
+            if kind in ("multiline", "polygon", "multipolygon") and rng.random() < 0.3:
+                # another encoding of "no vertices": parts that are themselves empty
+                e = [[[]]] if kind == "multipolygon" and rng.random() < 0.5 else [[]]
+            vals.append(e)
         elif vals and rng.random() < dup:
             prev = [v for v in vals if v is not None and v != [] and v == v]
             vals.append(rng.choice(prev) if prev else gen_element(rng, kind, ints))
